@@ -316,6 +316,8 @@ pub fn run(sink: &mut Sink, rng: &mut Rng, thorough: bool, dir: &Path) {
 
   // space-time variants of `moc op`
   crate::st::c19_st(sink, rng, thorough, dir);
+  // `moc from timestamppos / timerangepos`
+  crate::st::c19_st_from(sink, rng, thorough, dir);
 
   // NUNIQ (v1) inputs for space
   for _ in 0..(if thorough { 40 } else { 8 }) {
